@@ -15,17 +15,42 @@ Theorem C06_place_total :
 Proof. exact (place_tags_ok_spec gen_num_buckets gen_place_cases gen_pattern_tags place_total_gen). Qed.
 Print Assumptions C06_place_total.
 
-(* accepted_rule_bound: a rule the validation accepts is well bound: under every pattern alternative every variable of the Where
-   filter and of At() is bound (or is $$), and every variable the Report/Suggest templates interpolate is bound *)
+(* accepted_rule_bound: a rule the loader's validation accepts is well bound: under every pattern alternative every variable the
+   Where filter MENTIONS (through whatever op of the regenerated table) and the At() variable is bound (or is $$), and every
+   variable the Report/Suggest templates interpolate is bound.  The loader only checks the variables it RECORDED, i.e. those of
+   the nodes whose op has flagHasVar in the regenerated table: the theorem rests on optab_flags_complete. *)
 Theorem C06_accepted_rule_bound :
-  forall r, gen_validate r = true -> well_bound r.
-Proof. exact (accepted_rule_bound gen_num_buckets gen_place_cases gen_kind_names gen_object_names gen_tag_names gen_swap_guard). Qed.
+  forall r, rule_wf gen_optab r = true -> gen_validate r = true -> well_bound r.
+Proof. intros r. exact (accepted_rule_bound gen_num_buckets gen_place_cases gen_kind_names gen_object_names gen_tag_names gen_swap_guard gen_optab r optab_flags_complete). Qed.
 Print Assumptions C06_accepted_rule_bound.
+
+(* flag_table: every op whose DSL form takes a variable has flagHasVar; flagHasVar only where $Value is a variable name (string);
+   binary / literal ops have the operands / value types newBinaryExprFilter relies on *)
+Theorem C06_flag_table :
+  (forall o, In o gen_optab -> mentions_var o = true -> op_has_var o = true) /\
+  (forall o, In o gen_optab -> op_has_var o = true -> mentions_var o = true /\ op_value_type o = "string") /\
+  flags_shape gen_optab = true.
+Proof.
+  split; [|split].
+  - intros o Ho Hm. pose proof optab_flags_complete as H. unfold flags_complete in H. rewrite forallb_forall in H.
+    specialize (H o Ho). rewrite Hm in H. exact H.
+  - intros o Ho Hv. pose proof optab_flags_sound as H. unfold flags_sound in H. rewrite forallb_forall in H.
+    specialize (H o Ho). rewrite Hv in H. cbn [implb] in H. apply andb_true_iff in H. destruct H as [H1 H2].
+    split; [assumption|now apply String.eqb_eq].
+  - exact optab_flags_shape.
+Qed.
+Print Assumptions C06_flag_table.
+
+(* loader_is_spec: on every rule the loader's verdict (recorded variables) is the specification's (mentioned variables) *)
+Theorem C06_loader_is_spec :
+  forall r, rule_wf gen_optab r = true -> gen_validate r = gen_validate_spec r.
+Proof. intros r. exact (validate_is_spec gen_num_buckets gen_place_cases gen_kind_names gen_object_names gen_tag_names gen_swap_guard gen_optab r optab_flags_complete). Qed.
+Print Assumptions C06_loader_is_spec.
 
 Theorem C06_accepted_rule_placed :
   forall r a, gen_validate r = true -> v_comment r = false -> In a (v_alts r) ->
   exists l, place_of gen_place_cases (a_tag a) = PTags l /\ l <> [] /\ forall t, In t l -> (t < gen_num_buckets)%N.
-Proof. exact (accepted_rule_placed gen_num_buckets gen_place_cases gen_kind_names gen_object_names gen_tag_names gen_swap_guard). Qed.
+Proof. exact (accepted_rule_placed gen_num_buckets gen_place_cases gen_kind_names gen_object_names gen_tag_names gen_swap_guard gen_optab). Qed.
 Print Assumptions C06_accepted_rule_placed.
 
 Theorem C06_interpolated_names_are_pattern_variables :
@@ -73,16 +98,16 @@ Proof. exact loader_panic_sites. Qed.
 Print Assumptions C06_loader_panic_sites.
 
 (* non-vacuity: rules that are accepted / rejected for each reason *)
-Example ex_binary : map (fun x => gen_validate (mkVRule false [mkAlt true 4 ["x"; "y"]] [mkAtom ["x"] x] None ["m"]))
+Example ex_binary : map (fun x => gen_validate (mkVRule false [mkAlt true 4 ["x"; "y"]] [mkAtom [("VarTypeSize", "x")] [] x] None ["m"]))
     [ChkBinary true OLit OSize; ChkBinary false OLit OSize; ChkBinary true OLit OLit; ChkBinary true OText OText; ChkBinary true OLine OSize; ChkBinary false OValueInt OLit]
   = [true; false; false; true; false; true].
 Proof. vm_compute. reflexivity. Qed.
 Example ex_accept : gen_validate (mkVRule false [mkAlt true 4 ["x"; "y"]; mkAlt true 4 ["x"; "y"; "z"]]
-    [mkAtom ["x"] (ChkKind "integer"); mkAtom ["$$"] ChkNone; mkAtom [] (ChkVersion "1.16")] (Some "y") ["$x and $$ cost $5"; "$y"]) = true.
+    [mkAtom [("VarTypeOfKind", "x")] [] (ChkKind "integer"); mkAtom [("VarPure", "$$")] [] ChkNone; mkAtom [] [] (ChkVersion "1.16")] (Some "y") ["$x and $$ cost $5"; "$y"]) = true.
 Proof. vm_compute. reflexivity. Qed.
 Example ex_reject_at : gen_validate (mkVRule false [mkAlt true 4 ["x"; "y"]] [] (Some "z") ["m"]) = false.
 Proof. vm_compute. reflexivity. Qed.
-Example ex_reject_where_in_second_alt : gen_validate (mkVRule false [mkAlt true 4 ["x"; "y"]; mkAlt true 4 ["x"; "z"]] [mkAtom ["y"] ChkNone] None ["m"]) = false.
+Example ex_reject_where_in_second_alt : gen_validate (mkVRule false [mkAlt true 4 ["x"; "y"]; mkAlt true 4 ["x"; "z"]] [mkAtom [("VarPure", "y")] [] ChkNone] None ["m"]) = false.
 Proof. vm_compute. reflexivity. Qed.
 Example ex_reject_template : gen_validate (mkVRule false [mkAlt true 4 ["x"; "y"]; mkAlt true 4 ["x"; "z"]] [] None ["y=$y"]) = false.
 Proof. vm_compute. reflexivity. Qed.
@@ -90,9 +115,9 @@ Example ex_longest_name : template_vars "$xs$x$$x$" ["x"; "xs"] = ["xs"; "x"].
 Proof. vm_compute. reflexivity. Qed.
 Example ex_reject_longest : gen_validate (mkVRule false [mkAlt true 4 ["x"; "xs"]; mkAlt true 4 ["x"]] [] None ["$xs"]) = false.
 Proof. vm_compute. reflexivity. Qed.
-Example ex_reject_kind : gen_validate (mkVRule false [mkAlt true 4 ["x"]] [mkAtom ["x"] (ChkKind "bool")] None ["m"]) = false.
+Example ex_reject_kind : gen_validate (mkVRule false [mkAlt true 4 ["x"]] [mkAtom [("VarTypeOfKind", "x")] [] (ChkKind "bool")] None ["m"]) = false.
 Proof. vm_compute. reflexivity. Qed.
-Example ex_reject_version : gen_validate (mkVRule false [mkAlt true 4 ["x"]] [mkAtom [] (ChkVersion "1.16.3")] None ["m"]) = false.
+Example ex_reject_version : gen_validate (mkVRule false [mkAlt true 4 ["x"]] [mkAtom [] [] (ChkVersion "1.16.3")] None ["m"]) = false.
 Proof. vm_compute. reflexivity. Qed.
 Example ex_stmt_list_placed : place_of gen_place_cases 50%N = PTags [5; 8; 10]%N /\ gen_validate (mkVRule false [mkAlt true 50 ["x"]] [] None ["m"]) = true.
 Proof. vm_compute. split; reflexivity. Qed.
@@ -100,3 +125,21 @@ Example ex_too_general_rejected : gen_validate (mkVRule false [mkAlt true 53 ["x
 Proof. vm_compute. reflexivity. Qed.
 Example ex_versions : map version_ok ["1.16"; ""; "1"; "1.x"; "+1.-2"; "9223372036854775808.1"; "1.2.3"; "."] = [true; true; false; false; true; false; false; false].
 Proof. vm_compute. reflexivity. Qed.
+
+(* every op that takes a variable, applied to a variable no alternative binds, is rejected; to a bound one, accepted *)
+Example ex_every_var_op_checked :
+  forallb (fun o => implb (mentions_var o)
+     (negb (gen_validate (mkVRule false [mkAlt true 4 ["x"; "y"]] [mkAtom [(op_name o, "nosuch")] [] ChkNone] None ["m"])) &&
+      gen_validate (mkVRule false [mkAlt true 4 ["x"; "y"]] [mkAtom [(op_name o, "y")] [] ChkNone] None ["m"]))) gen_optab = true
+  /\ Nat.leb 26 (List.length (filter mentions_var gen_optab)) = true.
+Proof. vm_compute. split; reflexivity. Qed.
+Example ex_identical_second_variable : gen_validate (mkVRule false [mkAlt true 4 ["x"; "y"]] [mkAtom [("VarTypeIdenticalTo", "x")] ["z"] ChkNone] None ["m"]) = false.
+Proof. vm_compute. reflexivity. Qed.
+(* a table that misses the flag on one op lets exactly that op's variable through: the loader accepts what the specification rejects *)
+Example ex_leak_without_flag :
+  let tab := map (fun o => if String.eqb (op_name o) "VarObjectIsGlobal" then mkOp (op_name o) (op_num o) (op_form o) (op_value_type o) false false false true else o) gen_optab in
+  let r := mkVRule false [mkAlt true 4 ["x"; "y"]] [mkAtom [("VarObjectIsGlobal", "nosuch")] [] ChkNone] None ["m"] in
+  flags_complete tab = false /\ rule_wf tab r = true /\
+  validate gen_num_buckets gen_place_cases gen_kind_names gen_object_names gen_tag_names gen_swap_guard tab r = true /\
+  gen_validate_spec r = false /\ gen_validate r = false.
+Proof. vm_compute. repeat split; reflexivity. Qed.
